@@ -240,6 +240,23 @@ func runRoundScenario(seed uint64, size int, t *Trace) error {
 					as.GCAAuthorization = glow.Sign(as.SigningBytes(), signer)
 					list = append(list, as)
 				}
+				if len(list) > 0 && r.Chance(25) {
+					// the same key twice: a second entry for a listed server, either GCA-signed too or forged by
+					// the replying server (before or after the genuine one)
+					dup := list[r.Intn(len(list))]
+					dup.Banned = !dup.Banned || r.Chance(50)
+					dup.HttpPort++
+					dsigner := signer
+					if r.Chance(60) {
+						dsigner = fs[i].key.Priv
+					}
+					dup.GCAAuthorization = glow.Sign(dup.SigningBytes(), dsigner)
+					if r.Chance(50) {
+						list = append([]server.AuthorizedServer{dup}, list...)
+					} else {
+						list = append(list, dup)
+					}
+				}
 			case 2: // migration order (sometimes for another device, sometimes with a bad inner signature)
 				eq := dev.Pub
 				if r.Chance(20) {
